@@ -240,7 +240,8 @@ def base_inventory(base: bytes):
         w = v.by_name[b"WAV "][-1]
         wavs = [v.text(int.from_bytes(w[4 * k:4 * k + 4], "little")) for k in range(512)]
         wavs = [x for x in wavs if x]
-    return {"locs": locs, "cuwps": cuwps, "texts": texts, "wavs": wavs, "has_unis": b"UNIS" in v.by_name,
+    return {"locs": locs, "cuwps": cuwps, "cuwp_raw": {i: v.cuwps[i - 1] for i in cuwps},
+            "texts": texts, "wavs": wavs, "has_unis": b"UNIS" in v.by_name,
             "has_unix": b"UNIx" in v.by_name, "nloc": len(v.locs)}
 
 
@@ -248,10 +249,11 @@ def gen_scenario(rng: random.Random, base: bytes, kind="mixed"):
     inv = base_inventory(base)
     spec = SC.spec_tables()
     enums = SC._enum_ids()
-    nl, nc, ns = rng.choice([0, 1, 2, 4]), rng.choice([0, 1, 2]), rng.choice([0, 1, 3])
+    nl, nc, ns = rng.choice([0, 1, 2, 4]), rng.choice([0, 1, 2]), rng.choice([0, 1, 3, 8])
     used = set(inv["locs"])
     free = [i for i in range(1, inv["nloc"] + 1) if i not in used and i != 64]
     pool = {"locs": [], "cuwps": [], "switches": []}
+    twin_index = None
     for k in range(nl):
         carry = rng.choice(free) if (free and rng.random() < 0.15) else None
         if carry:
@@ -263,6 +265,32 @@ def gen_scenario(rng: random.Random, base: bytes, kind="mixed"):
         pool["cuwps"].append([rng.randrange(1, 101), rng.randrange(101), rng.randrange(101), rng.choice([0, 5000]),
                               rng.randrange(9), [rng.random() < 0.3 for _ in range(5)],
                               [True] * 5 + [False], [True] * 6 + [False], False, 0, None])
+    # twins of slots the map already has: identical (must reuse the slot) or differing in exactly one field
+    # (must NOT be taken for the existing slot)
+    if inv["cuwp_raw"] and rng.random() < 0.5:
+        raw = inv["cuwp_raw"][rng.choice(sorted(inv["cuwp_raw"]))]
+        bits = lambda x, n: [bool((x >> i) & 1) for i in range(n)]  # noqa
+        tw = [raw["_hitpoints_percentage"], raw["_shieldpoints_percentage"], raw["_energypoints_percentage"],
+              raw["_resource_amount"], raw["_units_in_hangar"], bits(raw["_flags"], 5),
+              bits(raw["_valid_special_properties_flags"], 6), bits(raw["_valid_unit_properties_flags"], 7),
+              bool((raw["_flags"] >> 5) & 1), raw["_padding"], None]
+        which = rng.choice(["same", "hp", "sh", "en", "res", "hangar", "flag", "vs", "vu"])
+        if which in ("hp", "sh", "en"):
+            i = ["hp", "sh", "en"].index(which)
+            tw[i] = tw[i] + 1 if tw[i] < 100 else tw[i] - 1
+        elif which == "res":
+            tw[3] += 1
+        elif which == "hangar":
+            tw[4] = (tw[4] + 1) % 100
+        elif which == "flag":
+            tw[5][rng.randrange(5)] ^= True
+        elif which == "vs":
+            tw[6][rng.randrange(5)] ^= True
+        elif which == "vu":
+            tw[7][rng.randrange(6)] ^= True
+        if tw[0] >= 1 and raw["_padding"] == 0 and raw["_valid_special_properties_flags"] < 64 and raw["_valid_unit_properties_flags"] < 128:
+            pool["cuwps"].append(tw)
+            twin_index = len(pool["cuwps"]) - 1
     for k in range(ns):
         pool["switches"].append([f"authored switch {k}" if rng.random() < 0.8 else None, None])
     # a switch without name and index is fine too (identity), keep at most one such
@@ -346,6 +374,17 @@ def gen_scenario(rng: random.Random, base: bytes, kind="mixed"):
             ops.append(["upsert_units", name, units])
         else:
             ops.append(["save_reload"])
+    if ns >= 3 and rng.random() < 0.7:
+        # every authored switch is used by an authored action, so each needs a slot
+        ops.insert(rng.randrange(len(ops) + 1), ["add_triggers", [{"conds": [], "players": [0], "acts": [
+            ["rich", 13, [["_switch", [8, i]], ["_switch_action", [1, 4]]], [False] * 5] for i in range(len(pool["switches"]))]}]])
+    if twin_index is not None:
+        # the twin is referred to by an authored action (otherwise it would never reach the file)
+        if not pool["locs"]:
+            pool["locs"].append([1, 1, 2, 2, None, None, [True] * 6])
+        ops.insert(rng.randrange(len(ops) + 1), ["add_triggers", [{"conds": [], "players": [0], "acts": [
+            ["rich", 11, [["_group", [1, 0]], ["_amount", [0, 1]], ["_unit", [1, 0]], ["_location", [2, 0]],
+                          ["_properties", [6, twin_index]]], [False] * 5]]}]])
     return {"pool": pool, "ops": ops}
 
 
